@@ -5,7 +5,7 @@ cd "$(dirname "$0")/.." || exit 2
 export GOFLAGS=-mod=mod GOPROXY=off GOSUMDB=off GOTOOLCHAIN=local
 unset GOWORK
 REPO="${VERIF_REPO:-/repo}"
-if [ ! -x bin/verifchk ]; then
+if [ ! -x bin/verifchk ] || [ -n "$(find checker -name '*.go' -newer bin/verifchk 2>/dev/null | head -1)" ]; then
   (cd checker && go build -o ../bin/verifchk ./cmd/verifchk) || { echo "cannot build checker"; exit 2; }
 fi
-exec bin/verifchk -repo "$REPO" -prop "$1" -tier "${2:-quick}" -evidence "${VERIF_EVIDENCE:-/verif/evidence}" -known /verif/KNOWN_FINDINGS.txt
+exec bin/verifchk -repo "$REPO" -prop "$1" -tier "${2:-${VERIF_TIER:-quick}}" -evidence "${VERIF_EVIDENCE:-/verif/evidence}" -known /verif/KNOWN_FINDINGS.txt
